@@ -142,7 +142,7 @@ func exec(r run) (out string, err error) {
 			out = buf.String()
 		}
 	}()
-	files := r.T.files(r.Entry != "import")
+	files := r.T.files(r.Entry != "import" && r.Entry != "import-retry")
 	opts := interp.Options{Stdout: &buf, Stderr: &bytes.Buffer{}}
 	if r.FS == "disk" {
 		os.RemoveAll(filepath.Join(scratch, "gp"))
@@ -165,6 +165,31 @@ func exec(r run) (out string, err error) {
 	i := interp.New(opts)
 	i.Use(h.Exports(&buf, &steps))
 	switch r.Entry {
+	case "import-retry":
+		// first attempt with the sources of the last package missing (it fails), then the package appears and the same
+		// interpreter imports again: a failed import must not poison later ones
+		mfs := opts.SourcecodeFilesystem.(fstest.MapFS)
+		held := map[string]*fstest.MapFile{}
+		lastDir := ""
+		for _, pk := range r.T.Pkgs {
+			if pk.Dir != r.T.Main {
+				lastDir = "gp/src/" + pk.Dir + "/"
+			}
+		}
+		for p, f := range mfs {
+			if strings.HasPrefix(p, lastDir) {
+				held[p] = f
+				delete(mfs, p)
+			}
+		}
+		if _, e := i.Eval(fmt.Sprintf("import %q", r.T.Main)); e == nil {
+			return buf.String(), fmt.Errorf("HARNESS: the import succeeded although %s is missing", lastDir)
+		}
+		buf.Reset()
+		for p, f := range held {
+			mfs[p] = f
+		}
+		_, err = i.Eval(fmt.Sprintf("import %q", r.T.Main))
 	case "import":
 		_, err = i.Eval(fmt.Sprintf("import %q", r.T.Main))
 	case "dir":
@@ -401,6 +426,14 @@ func main() {
 				runs = append(runs, run{T: t, Entry: e, FS: f})
 			}
 		}
+	}
+	// retry after a failed import: trees of >= 2 packages in which every package is needed (chains, diamonds, fan-in: every package exists once), on the virtual filesystem
+	for _, t := range trees(r.Thorough()) {
+		_, resolvable := t.expected()
+		if !resolvable || t.Cycle || len(t.Pkgs) < 2 || !strings.HasPrefix(t.Name, "F3 ") {
+			continue
+		}
+		runs = append(runs, run{T: t, Entry: "import-retry", FS: "mapfs"})
 	}
 	res := par.Map(len(runs), func(i int) *fail { return one(runs[i]) }, par.Opts{})
 	os.RemoveAll(filepath.Join(root, ".work", "c16"))
